@@ -292,7 +292,7 @@ func (p *proof) emit(g *hx.Gen) string { return p.emitOp(g, "check") }
 func (p *proof) emitOp(g *hx.Gen, op string) string {
 	buf := new(bytes.Buffer)
 	p.tx.Serialize(buf)
-	cb := p.tx.Hash()
+	cb := freshHash(&p.tx)
 	script := "none"
 	if len(p.tx.TxIn) > 0 {
 		script = hx.Hex(p.tx.TxIn[0].SignatureScript)
@@ -420,8 +420,18 @@ func validProof(r *hx.Rand, h int, shift bool) (*proof, []byte, int) {
 	if r.Chance(10) {
 		p.parIdx = r.Intn(1 << 20)
 	}
-	p.parRoot = auxpow.GetMerkleRoot(p.tx.Hash(), p.parBranch, p.parIdx)
+	p.parRoot = auxpow.GetMerkleRoot(freshHash(&p.tx), p.parBranch, p.parIdx)
 	return p, script, off
+}
+
+// the hash of the transaction as a peer would compute it: from its bytes, never from a value the
+// object may have remembered
+func freshHash(tx *auxpow.BtcTx) common.Uint256 {
+	buf := new(bytes.Buffer)
+	tx.Serialize(buf)
+	var h common.Uint256
+	copy(h[:], sha256d(buf.Bytes()))
+	return h
 }
 
 func (p *proof) wire() string {
@@ -439,7 +449,7 @@ func (p *proof) wire() string {
 func (p *proof) tokens() string {
 	buf := new(bytes.Buffer)
 	p.tx.Serialize(buf)
-	cb := p.tx.Hash()
+	cb := freshHash(&p.tx)
 	script := "none"
 	if len(p.tx.TxIn) > 0 {
 		script = hx.Hex(p.tx.TxIn[0].SignatureScript)
@@ -456,7 +466,7 @@ func (p *proof) withScript(s []byte) *proof {
 	in.SignatureScript = s
 	tx.TxIn = []*auxpow.BtcTxIn{&in}
 	q.tx = tx
-	q.parRoot = auxpow.GetMerkleRoot(q.tx.Hash(), q.parBranch, q.parIdx)
+	q.parRoot = auxpow.GetMerkleRoot(freshHash(&q.tx), q.parBranch, q.parIdx)
 	return &q
 }
 
@@ -502,7 +512,7 @@ func genFixed(g *hx.Gen) {
 		script = append(script, 0x01, 0, 0, 0, 0, 0, 0, 0)
 		in := &auxpow.BtcTxIn{PreviousOutPoint: auxpow.BtcOutPoint{Index: 0xffffffff}, SignatureScript: script}
 		p.tx = *auxpow.NewBtcTx([]*auxpow.BtcTxIn{in}, nil)
-		p.parRoot = p.tx.Hash()
+		p.parRoot = freshHash(&p.tx)
 		p.emit(g)
 	}
 	for _, f := range fixtures {
@@ -590,7 +600,7 @@ func gen(g *hx.Gen) {
 		}
 		m(func(q *proof) { q.auxBranch = append(append([]common.Uint256{}, q.auxBranch...), randHash(r)) })
 		m(func(q *proof) { tx := q.tx; tx.LockTime++; q.tx = tx }) // coinbase changed, parent root not
-		m(func(q *proof) { tx := q.tx; tx.TxIn = nil; q.tx = tx; q.parRoot = auxpow.GetMerkleRoot(q.tx.Hash(), q.parBranch, q.parIdx) })
+		m(func(q *proof) { tx := q.tx; tx.TxIn = nil; q.tx = tx; q.parRoot = auxpow.GetMerkleRoot(freshHash(&q.tx), q.parBranch, q.parIdx) })
 		m(func(q *proof) { q.parIdx = -1; q.parRoot = common.Uint256{} })
 		// one AuxPow variable reused for two proofs: A = p (valid), B = a forgery that keeps A's parent
 		// branch/root but carries a coinbase committing to another block; and B = another valid proof
